@@ -6,7 +6,7 @@
    Part 1: definitions, a single transfer, the ballot loop. *)
 From Coq Require Import ZArith List Bool String Lia ZifyBool Permutation.
 From Droop Require Import Model.KernelBase Model.Str Model.Arith Model.Prelude Model.State Model.Prims
-  Model.RulesGregory Proofs.CmdMeta Proofs.Zlike Proofs.Gregory Proofs.Status Proofs.SortLemmas Proofs.Forward Proofs.ForwardOps.
+  Model.RulesGregory Proofs.CmdMeta Proofs.Zlike Proofs.Gregory Proofs.Status Proofs.SortLemmas Proofs.Forward Proofs.ForwardOps Proofs.ForwardGreg2.
 Import ListNotations.
 Open Scope Z_scope.
 
@@ -128,7 +128,7 @@ Variable wsel : est -> ballot -> res (T A).
 Variables v surp q0 : Z.
 Variable Q : est -> Prop.
 Hypothesis keep_vote : forall c x, keep (with_vote c x) = keep c.
-Hypothesis Q_add : forall s c x, Q s -> src c = false -> Q (add_vote A c x s).
+Hypothesis Q_add : forall s c x cc, Q s -> src c = false -> find_cand A (cands s) c = Some cc -> keep cc = true -> Q (add_vote A c x s).
 Hypothesis Q_exh : forall s x, Q s -> Q (set_exhausted s x).
 Hypothesis Hv : 0 <= v.
 Hypothesis Hsurp : 0 <= surp.
@@ -193,7 +193,7 @@ Proof.
   assert (Hbound: bval b' * v <= bval b * surp) by (rewrite Ev', Ev; nia).
   destruct Hcase as [(cx & ccx & Etop & Efind & Hkeep & Es')|(Etop & Es')]; subst s'.
   - destruct (find_cand_In _ _ _ Efind) as [Hin Hcid]. destruct (li_keep _ _ HL ccx Hin Hkeep) as [Hcont Hsrc]. rewrite Hcid in Hsrc.
-    split; [|split; [apply Q_add; assumption|split; [repeat split|split; [unfold selS; rewrite Etop; exact Hsrc|split; [exact Htot|split; [assumption|split; assumption]]]]]].
+    split; [|split; [apply (Q_add s cx _ ccx); assumption|split; [repeat split|split; [unfold selS; rewrite Etop; exact Hsrc|split; [exact Htot|split; [assumption|split; assumption]]]]]].
     constructor.
     + rewrite cids_add_vote. exact (li_nd _ _ HL).
     + exact Hwf.
@@ -521,7 +521,7 @@ Qed.
 
 Lemma move keep src wsel v surp (Q : est -> Prop) (s : est) :
   (forall c x, keep (with_vote c x) = keep c) ->
-  (forall s c x, Q s -> src c = false -> Q (add_vote A c x s)) ->
+  (forall s c x cc, Q s -> src c = false -> find_cand A (cands s) c = Some cc -> keep cc = true -> Q (add_vote A c x s)) ->
   (forall s x, Q s -> Q (set_exhausted s x)) ->
   (forall s bs, Q s -> Q (set_ballots s bs)) ->
   (forall s b w, Q s -> wfb b -> wsel s b = Ok w -> 0 <= R w /\ R w * v <= R (bweight b) * surp /\ 0 < v) ->
@@ -637,30 +637,35 @@ Lemma gh_surplus_core keep rew h (s2 : est) ch :
   let surp := sub A (cvote_of A s2 h) (quota s2) in
   let s3 := for_ballots A (reweigh_transfer A keep rew h surp) (top_is A h) s2 in
   crashed s3 = false ->
-  GH (set_vote A h (quota s3) s3) /\ crashed (set_vote A h (quota s3) s3) = false.
+  GH (set_vote A h (quota s3) s3) /\ crashed (set_vote A h (quota s3) s3) = false /\
+  (forall c, In c (cands s2) -> cid c <> h -> keep c = false -> In c (cands (set_vote A h (quota s3) s3))) /\
+  lv_batch (set_vote A h (quota s3) s3) = lv_batch s2.
 Proof.
   intros Hrew Hkv [G H] Hc Hk Hin Hid Hcont Hnw Hq Hst surp s3 Hc3.
   pose proof (g_nd _ _ G) as Hnd.
   assert (Ecv: cvote_of A s2 h = cvote ch) by (unfold cvote_of; rewrite <- Hid, (find_of_in _ _ Hnd Hin); reflexivity).
   assert (Hsurp: R surp = R (cvote ch) - R (quota s2)) by (unfold surp; rewrite (r_sub A S ZL), Ecv; reflexivity).
-  set (Q := fun s : est => In ch (cands s) /\ cvote_of A s h = cvote ch).
+  set (Q := fun s : est => NoDup (map (@cid A) (cands s)) /\ In ch (cands s) /\ cvote_of A s h = cvote ch /\
+                           (forall c, In c (cands s2) -> cid c <> h -> keep c = false -> In c (cands s))).
   assert (Hmove := move keep (fun c => c =? h) (fun s b => rew (bweight b) surp (cvote_of A s h)) (R (cvote ch)) (R surp) Q s2 Hkv).
   cbv zeta in Hmove.
   change (for_ballots A (f_gen keep (fun s b => rew (bweight b) surp (cvote_of A s h))) (selS (fun c => c =? h)) s2) with s3 in Hmove.
-  destruct Hmove as (HL & [HQ1 HQ2] & Hsf & Hall & mn & Hm1 & Hm2 & Hm3 & Hm4); try assumption.
-  - intros s c x [Q1 Q2] Hsrc. assert (c <> h) by lia. split.
+  destruct Hmove as (HL & (HQ0 & HQ1 & HQ2 & HQ3) & Hsf & Hall & mn & Hm1 & Hm2 & Hm3 & Hm4); try assumption.
+  - intros s c x cc (Q0 & Q1 & Q2 & Q3) Hsrc Hf Hkc. assert (c <> h) by lia. split; [rewrite cids_add_vote; exact Q0|]. split; [|split].
     + unfold add_vote, upd. cbn [cands set_cands]. apply in_other_upd; [exact Q1|congruence].
     + unfold cvote_of, add_vote, upd. cbn [cands set_cands]. rewrite find_upd_other; [exact Q2|assumption|reflexivity].
+    + intros c0 Hc0 Hne Hk0. unfold add_vote, upd. cbn [cands set_cands]. apply in_other_upd; [exact (Q3 c0 Hc0 Hne Hk0)|].
+      intros E. rewrite <- E in Hf. rewrite (find_of_in _ _ Q0 (Q3 c0 Hc0 Hne Hk0)) in Hf. inversion Hf; subst. congruence.
   - intros s x HQ. exact HQ.
   - intros s bs HQ. exact HQ.
-  - intros s b w [Q1 Q2] [Hw0 _] Ew. rewrite Q2 in Ew. apply (Hrew (bweight b) surp (cvote ch) w Hw0); [lia|exact (g_nonneg _ _ G ch Hin)|exact Ew].
-  - split; [exact Hin|exact Ecv].
+  - intros s b w (_ & Q1 & Q2 & _) [Hw0 _] Ew. rewrite Q2 in Ew. apply (Hrew (bweight b) surp (cvote ch) w Hw0); [lia|exact (g_nonneg _ _ G ch Hin)|exact Ew].
+  - split; [exact Hnd|]. split; [exact Hin|]. split; [exact Ecv|auto].
   - intros c Hcin Hkc. destruct (Hk c Hcin Hkc) as [H1 H2]. split; [exact H1|]. destruct (cid c =? h) eqn:E; [lia|reflexivity].
-  - destruct Hsf as (Eq & Ea & _).
+  - destruct Hsf as (Eq & Ea & Elb & _).
     assert (Hsel: selsum (fun c => c =? h) (ballots s2) = stand (ballots s2) h) by (apply selsum_single; reflexivity).
     rewrite Hsel, <- Hst in Hm3.
     assert (Hmn: mn <= R surp) by (destruct Hm4 as [->|Hv]; [lia|nia]).
-    split; [split|exact Hc3].
+    split; [split|split; [exact Hc3|split]].
     + apply (good_finish_single keep h (quota s3) s2 s3 ch); try assumption.
       * exact (g_quota _ _ G).
       * right; exact Hcont.
@@ -668,6 +673,8 @@ Proof.
       * rewrite Eq. exact (g_quota _ _ G).
       * rewrite Eq. pose proof (g_total _ _ G). lia.
     + unfold set_vote, upd. cbn [actions set_cands]. rewrite Ea. exact H.
+    + intros c Hc0 Hne Hk0. unfold set_vote, upd. cbn [cands set_cands]. apply in_other_upd; [exact (HQ3 c Hc0 Hne Hk0)|exact Hne].
+    + exact Elb.
 Qed.
 
 
@@ -791,7 +798,7 @@ Qed.
 
 Lemma move_plain keep src (Q : est -> Prop) (s : est) :
   (forall c x, keep (with_vote c x) = keep c) ->
-  (forall s c x, Q s -> src c = false -> Q (add_vote A c x s)) ->
+  (forall s c x cc, Q s -> src c = false -> find_cand A (cands s) c = Some cc -> keep cc = true -> Q (add_vote A c x s)) ->
   (forall s x, Q s -> Q (set_exhausted s x)) ->
   (forall s bs, Q s -> Q (set_ballots s bs)) ->
   Good B s -> crashed s = false -> Q s ->
@@ -821,7 +828,7 @@ Proof.
   assert (Hmv := move_plain keep (fun c => c =? i) Q s Hkv). cbv zeta in Hmv.
   change (for_ballots A (transfer A keep) (selS (fun c => c =? i)) s) with s1 in Hmv.
   destruct Hmv as (HL & HQ1 & Hsf & Hall & mn & Hm1 & Hm2 & Hm3); try assumption.
-  - intros s0 c x Q1 Hsrc. unfold Q, add_vote, upd. cbn [cands set_cands]. apply in_other_upd; [exact Q1|]. intros E. rewrite Hid in E. subst c. rewrite Z.eqb_refl in Hsrc. discriminate.
+  - intros s0 c x cc Q1 Hsrc _ _. unfold Q, add_vote, upd. cbn [cands set_cands]. apply in_other_upd; [exact Q1|]. intros E. rewrite Hid in E. subst c. rewrite Z.eqb_refl in Hsrc. discriminate.
   - intros s0 x HQ. exact HQ.
   - intros s0 bs HQ. exact HQ.
   - intros c Hcin Hkc. destruct (Hk c Hcin Hkc) as [H1 H2]. split; [exact H1|]. destruct (cid c =? i) eqn:E; [lia|reflexivity].
@@ -1278,7 +1285,7 @@ Proof.
   assert (Hmv := move_plain keep src Q s Hkv). cbv zeta in Hmv.
   change (for_ballots A (transfer A keep) (selS src) s) with s1 in Hmv.
   destruct Hmv as (HL & HQ1 & Hsf & Hall & mn & Hm1 & Hm2 & Hm3); try assumption.
-  - intros t c x HQ Hs. unfold Q, add_vote, upd. cbn [cands set_cands]. apply relv_upd; [reflexivity|exact Hs|exact HQ].
+  - intros t c x cc HQ Hs _ _. unfold Q, add_vote, upd. cbn [cands set_cands]. apply relv_upd; [reflexivity|exact Hs|exact HQ].
   - intros t x HQ. exact HQ.
   - intros t bs HQ. exact HQ.
   - apply relv_refl.
@@ -1434,6 +1441,299 @@ Proof.
   - intros s H _ _. apply gh_unpend_all; exact H.
   - intros s H _ _. apply gh_fold_elect_np; exact H.
   - intros s H _ _. apply gh_fold_defeat; exact H.
+Qed.
+
+
+(* ---------- mpls ---------- *)
+Lemma elect_found i m p (s : est) : In i (map (@cid A) (cands s)) ->
+  cands (elect A cfg i m p s) = upd_cand A i (fun c => with_st c Elected (Some p)) (cands s) /\
+  ballots (elect A cfg i m p s) = ballots s /\ quota (elect A cfg i m p s) = quota s /\ crashed (elect A cfg i m p s) = crashed s.
+Proof.
+  intros Hi. split; [apply cands_elect; exact Hi|]. split; [apply ballots_elect|]. split; [apply quota_elect|].
+  unfold elect. destruct (find_cand_in A _ _ Hi) as [c ->]. rewrite crashed_log. reflexivity.
+Qed.
+
+Lemma mpls_keep_props : (forall (c : cand) x, mpls_keep A (with_vote c x) = mpls_keep A c) /\
+  (forall c : cand, mpls_keep A c = true -> cont c = true) /\ (forall c : cand, mpls_keep A c = true -> cst c <> Defeated).
+Proof.
+  split; [reflexivity|]. split; [intros c H; exact H|]. intros c H E. unfold mpls_keep, is_hopeful, is_pending, in_state in H. rewrite E in H. discriminate.
+Qed.
+
+Lemma gh_mpls_elect_high (s : est) : GH s -> crashed s = false -> crashed (mpls_elect_high A cfg s) = false -> GH (mpls_elect_high A cfg s).
+Proof.
+  intros H Hc Hcf. unfold mpls_elect_high in *. cbv zeta in *.
+  destruct (max_vote A (hopeful_with_quota A false s)) as [hv|]; [|rewrite sticky_set_crash in Hcf; discriminate].
+  set (highs := filter (fun c => eqv A (cvote c) hv) (hopeful_with_quota A false s)) in *.
+  destruct (bt_frame (bt_simple A cfg "largest surplus") highs s (bt_simple_logs _) H) as (H1 & Ec1 & Eb1 & Eq1 & Ecr1).
+  destruct (bt_simple_ok A cfg "largest surplus" highs s) as (_ & _ & Hmem).
+  destruct (bt_simple A cfg "largest surplus" highs s) as [s1 [h|]] eqn:Ebt; cbn [fst snd] in *; [|exact H1].
+  destruct (Hmem h eq_refl) as (c & Hch & Hid). unfold highs in Hch. apply filter_In in Hch. destruct Hch as [Hhq _].
+  assert (Hq: R (quota s) <= R (cvote c)).
+  { unfold hopeful_with_quota in Hhq. apply filter_In in Hhq. destruct Hhq as [_ Hx]. apply andb_prop in Hx. apply ge_quota_le. exact (proj2 Hx). }
+  pose proof (hwq_in A s false c Hhq) as Hhop. unfold hopefuls in Hhop. apply filter_In in Hhop. destruct Hhop as [Hcin Hh].
+  pose proof (g_nd _ _ (proj1 H)) as Hnd.
+  assert (Hi1: In h (map (@cid A) (cands s1))) by (rewrite Ec1, <- Hid; apply in_map; exact Hcin).
+  assert (Hc1: crashed s1 = false) by (rewrite Ecr1; [exact Hc|discriminate]).
+  destruct (elect_found h "Elect" false s1 Hi1) as (Ec2 & Eb2 & Eq2 & Ecr2).
+  set (s2 := elect A cfg h "Elect" false s1) in *.
+  assert (H2: GH s2) by (apply gh_elect_np; exact H1).
+  assert (Hc2: crashed s2 = false) by (rewrite Ecr2; exact Hc1). rewrite Hc2 in *.
+  set (ch := with_st c Elected (Some false)).
+  assert (Hchin: In ch (cands s2)).
+  { rewrite Ec2, Ec1. unfold upd_cand. apply in_map_iff. exists c. split; [|exact Hcin]. rewrite Hid, Z.eqb_refl. reflexivity. }
+  destruct mpls_keep_props as (K1 & K2 & K3).
+  pose proof (gh_surplus_core (mpls_keep A) (rew_wigm A) h s2 ch rew_wigm_ok K1 H2 Hc2) as Hcore. cbv zeta in Hcore.
+  match type of Hcore with _ -> _ -> _ -> _ -> _ -> _ -> _ -> crashed ?x = false -> _ => set (s3 := x) in * end.
+  destruct (crashed s3) eqn:Hc3; [cbv iota in Hcf; congruence|].
+  destruct Hcore as [H4 Hc4]; try reflexivity; try assumption.
+  - intros c' Hc' Hk. rewrite Ec2 in Hc'. destruct (in_upd_cand' _ _ _ _ Hc') as (c0 & Hc0 & [[Ei ->]|[Ei ->]]).
+    + unfold mpls_keep, is_hopeful, is_pending, in_state in Hk. cbn in Hk. discriminate.
+    + split; [exact (K2 _ Hk)|exact Ei].
+  - discriminate.
+  - rewrite Eq2, Eq1. exact Hq.
+  - rewrite Eb2, Eb1. cbn [cvote ch with_st]. destruct (g_tally _ _ (proj1 H) c Hcin) as [El|[Er _]]; [rewrite <- Hid; exact El|].
+    rewrite (hopeful_cont c Hh) in Er. discriminate.
+  - apply gh_log. apply (gh_same (set_vote A h (quota s3) s3)); try reflexivity. exact H4.
+Qed.
+
+Lemma gh_mpls_defeat_low (s : est) : GH s -> crashed s = false -> crashed (mpls_defeat_low A cfg s) = false -> GH (mpls_defeat_low A cfg s).
+Proof.
+  intros H Hc Hcf. unfold mpls_defeat_low in *.
+  destruct (low_candidates A s) as [[lv lows]|] eqn:El; [|rewrite sticky_set_crash in Hcf; discriminate].
+  destruct (bt_frame (bt_simple A cfg "defeat low candidate") lows s (bt_simple_logs _) H) as (H1 & Ec1 & Eb1 & Eq1 & Ecr1).
+  destruct (bt_simple_ok A cfg "defeat low candidate" lows s) as (_ & _ & Hmem).
+  destruct (bt_simple A cfg "defeat low candidate" lows s) as [s1 [l|]] eqn:Ebt; cbn [fst snd] in *; [|exact H1].
+  destruct (Hmem l eq_refl) as (c & Hcl & Hid). destruct (low_in_hop s lv lows c El Hcl) as [Hcin Hh].
+  assert (Hi1: In l (map (@cid A) (cands s1))) by (rewrite Ec1, <- Hid; apply in_map; exact Hcin).
+  assert (Hc1: crashed s1 = false) by (rewrite Ecr1; [exact Hc|discriminate]).
+  destruct (defeat_found l "Defeat low candidate" s1 Hi1) as [Ec2 Ecr2].
+  set (s2 := defeat A cfg l "Defeat low candidate" s1) in *. cbv zeta in *. rewrite Ecr2, Hc1 in *.
+  assert (H2: GH s2) by (apply gh_defeat; exact H1).
+  destruct (seats_left A cfg s2 <? nlen (hopefuls A s2)); [|exact H2].
+  set (cl := with_st c Defeated (cpend c)).
+  assert (Hclin: In cl (cands s2)).
+  { rewrite Ec2, Ec1. unfold upd_cand. apply in_map_iff. exists c. split; [|exact Hcin]. rewrite Hid, Z.eqb_refl. reflexivity. }
+  destruct mpls_keep_props as (K1 & K2 & K3).
+  destruct (gh_excl_one (mpls_keep A) l s2 cl K1 H2 Ecr2) as [H3 Hc3]; try assumption.
+  - intros c' Hc' Hk. split; [exact (K2 _ Hk)|]. intros E. rewrite Ec2 in Hc'. destruct (in_upd_cand' _ _ _ _ Hc') as (c0 & Hc0 & [[Ei ->]|[Ei ->]]); [|congruence].
+    unfold mpls_keep, is_hopeful, is_pending, in_state in Hk. cbn in Hk. discriminate.
+  - discriminate.
+  - reflexivity.
+  - apply gh_log. match goal with |- GH (set_surplus ?x _) => apply (gh_same x); try reflexivity end. exact H3.
+Qed.
+
+
+Lemma fold_defeat_facts' (mf : cand -> string) (l : list cand) : forall s, GH s ->
+  (forall c, In c l -> In (cid c) (map (@cid A) (cands s))) ->
+  let s' := fold_left (fun s c => defeat A cfg (cid c) (mf c) s) l s in
+  GH s' /\ crashed s' = crashed s /\ map (@cid A) (cands s') = map (@cid A) (cands s) /\ lv_batch s' = lv_batch s /\
+  (forall j, Sat s j isD -> Sat s' j isD) /\ (forall c, In c l -> Sat s' (cid c) isD).
+Proof.
+  induction l as [|c0 l IH]; intros s H Hl; cbn [fold_left].
+  - split; [exact H|]. split; [reflexivity|]. split; [reflexivity|]. split; [reflexivity|]. split; [auto|intros c []].
+  - pose proof (Hl c0 (or_introl eq_refl)) as Hi0. destruct (defeat_found (cid c0) (mf c0) s Hi0) as [_ Ecr].
+    destruct (IH (defeat A cfg (cid c0) (mf c0) s) (gh_defeat _ _ _ H)) as (H' & Ecr' & Eid' & Elb & Hkeep & HD).
+    { intros c Hc. rewrite ids_defeat. apply Hl. right; exact Hc. }
+    cbv zeta in *. split; [exact H'|]. split; [rewrite Ecr'; exact Ecr|]. split; [rewrite Eid'; apply ids_defeat|]. split; [rewrite Elb; apply lvb_defeat|]. split.
+    + intros j HS. apply Hkeep. apply sat_defeat_keepD. exact HS.
+    + intros c [<-|Hc]; [apply Hkeep; apply sat_defeat_D; exact Hi0|apply HD; exact Hc].
+Qed.
+
+Lemma mpls_find_defeats_in (s : est) : GH s -> crashed (mpls_find_defeats A cfg s) = false ->
+  GH (mpls_find_defeats A cfg s) /\ BatchIn (mpls_find_defeats A cfg s) /\ crashed s = false.
+Proof.
+  intros H Hcf. unfold mpls_find_defeats in *. cbv zeta in *.
+  match goal with |- context[match ?u with Ok _ => _ | Raise _ => _ end] => destruct u as [uv|e] end; [|rewrite sticky_set_crash in Hcf; discriminate].
+  split; [apply (gh_same s); try reflexivity; exact H|]. split; [|exact Hcf].
+  match goal with |- BatchIn (set_batch s (map _ ?l)) => apply (batchin_of_hopefuls s _ l); [reflexivity|reflexivity|] end.
+  apply Forall_app. split.
+  - destruct (round s =? 2); [|constructor]. apply Forall_forall. intros c Hc. apply filter_In in Hc. exact (proj1 Hc).
+  - apply Forall_forall. intros c Hc. apply filter_In in Hc. destruct Hc as [Hc _].
+    match type of Hc with In c (find_certain_losers A cfg ?sp s) => pose proof (certain_losers_hopeful A cfg sp s) as F end.
+    rewrite Forall_forall in F. exact (F c Hc).
+Qed.
+
+Lemma gh_mpls_defeat_batch (s : est) : GH s -> crashed s = false -> BatchIn s ->
+  GH (mpls_defeat_batch A cfg s) /\ crashed (mpls_defeat_batch A cfg s) = false.
+Proof.
+  intros H Hc HB. unfold mpls_defeat_batch. cbv zeta.
+  assert (Hl: forall c, In c (cands_of A s (lv_batch s)) -> In (cid c) (map (@cid A) (cands s))).
+  { intros c Hcin. apply in_map. exact (proj1 (cands_of_in A s _ c Hcin)). }
+  destruct (fold_defeat_facts' (fun c => if cundecl c then "Defeat undeclared write-in"%string else "Defeat certain loser"%string) _ s H Hl)
+    as (H1 & Ecr & Eid & Elb & _ & HD). cbv zeta in *.
+  match goal with |- context[for_ballots A _ _ ?x] => set (s1 := x) in * end.
+  destruct mpls_keep_props as (K1 & K2 & K3).
+  destruct (gh_batch_core (mpls_keep A) (lv_batch s) s1 K1 K2 K3 H1) as [H2 Hc2].
+  - rewrite Ecr; exact Hc.
+  - intros i Hi. split; [rewrite Eid; exact (HB i Hi)|]. destruct (cands_of_has s (lv_batch s) i Hi (HB i Hi)) as (c & Hcin & Ec). rewrite <- Ec. apply HD. exact Hcin.
+  - cbv zeta in *. split; [apply gh_log|rewrite crashed_log; exact Hc2].
+    match goal with |- GH (set_surplus ?x _) => apply (gh_same x); try reflexivity end. exact H2.
+Qed.
+
+Theorem mpls_triple : T3 Pre (mpls A cfg) GN GN GN.
+Proof.
+  unfold mpls. eapply t_seq with (M := GN).
+  - apply t_do_nc. intros s P Hcf. unfold new_round in Hcf. rewrite crashed_log in Hcf.
+    split; [|unfold new_round; rewrite crashed_log; exact Hcf]. apply gh_new_round. apply gh_start; [exact P|apply integer_quota_nonneg|exact Hcf].
+  - eapply t_seq with (M := GN).
+    + eapply t_post; [|apply (t_while est (@crashed A) GN GN)]; [intros s [Hs|[Hs _]]; exact Hs|].
+      eapply t_pre; [intros s [Hs _]; exact Hs|].
+      eapply t_seq with (M := GN); [apply pnc_triple; cbn [pnc]; intros s H _ _; apply gh_log; apply (gh_same s); try reflexivity; exact H|].
+      eapply t_seq with (M := GN); [apply pnc_triple; cbn [pnc]; pnc_split; intros s H _ _; apply gh_fold_elect_np; exact H|].
+      eapply t_seq with (M := GN); [apply pnc_triple; cbn [pnc]; intros s H _ _; apply gh_new_round; exact H|].
+      eapply t_seq with (M := GNI).
+      { apply t_do_nc. intros s [H Hc] Hcf. destruct (mpls_find_defeats_in s H Hcf) as (H1 & HB & _). split; [split; assumption|exact HB]. }
+      eapply t_seq with (M := GN).
+      { apply t_ite; [|apply t_skip'; intros s [[Hs _] _]; exact Hs].
+        eapply t_seq with (M := GN); [|apply t_continue'; auto].
+        apply t_do_nc. intros s [[[H Hc] HB] _] _. exact (gh_mpls_defeat_batch s H Hc HB). }
+      apply pnc_triple. cbn [pnc]. pnc_split.
+      * intros s H Hc Hcf. apply gh_mpls_elect_high; assumption.
+      * intros s H Hc Hcf. apply gh_mpls_defeat_low; assumption.
+    + apply pnc_triple. cbn [pnc]. pnc_split; intros s H _ _; [apply gh_fold_elect_np|apply gh_fold_defeat]; exact H.
+Qed.
+
+
+(* ---------- cfer, cfer-batch ---------- *)
+Lemma lvb_unpend i m (s : est) : lv_batch (unpend A cfg i m s) = lv_batch s.
+Proof.
+  unfold unpend. destruct (find_cand A (cands s) i) as [c|]; [|reflexivity]. destruct (is_pending A c); [|reflexivity].
+  destruct m; [rewrite lvb_log|]; reflexivity.
+Qed.
+
+Definition cfer_step (s : est) (c : cand) : est :=
+  if crashed s then s else
+  let h := cid c in
+  let s2 := unpend A cfg h (Some "Transfer surplus"%string) s in
+  if crashed s2 then s2 else
+  let surp := sub A (cvote_of A s2 h) (quota s2) in
+  let s3 := for_ballots A (reweigh_transfer A (is_hopeful A) (rew_wigm A) h surp) (top_is A h) s2 in
+  if crashed s3 then s3 else
+  let s4 := set_vote A h (quota s3) s3 in
+  log_action A cfg TTransfer ("Surplus transferred: " ++ cname_of A s4 h ++ " (" ++ str A surp ++ ")")%string s4.
+
+Lemma gh_cfer_step (s : est) c : GH s -> crashed s = false -> In c (cands s) -> is_pending A c = true ->
+  crashed (cfer_step s c) = false ->
+  GH (cfer_step s c) /\ lv_batch (cfer_step s c) = lv_batch s /\
+  (forall c', In c' (cands s) -> cid c' <> cid c -> is_hopeful A c' = false -> In c' (cands (cfer_step s c))).
+Proof.
+  intros H Hc Hcin Hpend Hcf. unfold cfer_step in *. rewrite Hc in *. cbv zeta in *.
+  pose proof (g_nd _ _ (proj1 H)) as Hnd.
+  destruct (unpend_pending (cid c) (Some "Transfer surplus"%string) s c Hnd Hcin eq_refl Hpend) as (Ec2 & Eb2 & Eq2 & Ecr2).
+  set (s2 := unpend A cfg (cid c) (Some "Transfer surplus"%string) s) in *.
+  assert (H2: GH s2) by (apply gh_unpend; exact H).
+  assert (Hc2: crashed s2 = false) by (rewrite Ecr2; exact Hc). rewrite Hc2 in *.
+  set (ch := with_st c Elected (Some false)).
+  assert (Hchin: In ch (cands s2)).
+  { rewrite Ec2. unfold upd_cand. apply in_map_iff. exists c. split; [|exact Hcin]. rewrite Z.eqb_refl. reflexivity. }
+  pose proof (gh_surplus_core (is_hopeful A) (rew_wigm A) (cid c) s2 ch rew_wigm_ok (fun _ _ => eq_refl) H2 Hc2) as Hcore. cbv zeta in Hcore.
+  match type of Hcore with _ -> _ -> _ -> _ -> _ -> _ -> _ -> crashed ?x = false -> _ => set (s3 := x) in * end.
+  destruct (crashed s3) eqn:Hc3; [cbv iota in Hcf; congruence|].
+  destruct Hcore as (H4 & Hc4 & Hfr & Elb); try reflexivity; try assumption.
+  - intros c' Hc' Hk. rewrite Ec2 in Hc'. destruct (in_upd_cand' _ _ _ _ Hc') as (c0 & Hc0 & [[Ei ->]|[Ei ->]]).
+    + apply hopeful_not_elected in Hk. discriminate.
+    + split; [apply hopeful_cont; exact Hk|exact Ei].
+  - discriminate.
+  - rewrite Eq2. exact (g_pend _ _ (proj1 H) c Hcin Hpend).
+  - rewrite Eb2. cbn [cvote ch with_st]. destruct (g_tally _ _ (proj1 H) c Hcin) as [El|[Er _]]; [exact El|].
+    rewrite (pending_cont c Hpend) in Er. discriminate.
+  - split; [apply gh_log; exact H4|]. split; [rewrite lvb_log, Elb; apply lvb_unpend|].
+    intros c' Hc' Hne Hh. rewrite cands_log. apply Hfr; [|exact Hne|exact Hh]. rewrite Ec2. apply in_other_upd; assumption.
+Qed.
+
+Lemma cfer_step_crashed (l : list cand) : forall s : est, crashed s = true -> fold_left cfer_step l s = s.
+Proof. induction l as [|c l IH]; intros s H; cbn [fold_left]; [reflexivity|]. unfold cfer_step at 2. rewrite H. apply IH. exact H. Qed.
+
+Lemma gh_cfer_fold (l : list cand) : forall s, GH s -> crashed s = false -> NoDup (map (@cid A) l) ->
+  (forall c, In c l -> In c (cands s) /\ is_pending A c = true) ->
+  crashed (fold_left cfer_step l s) = false ->
+  GH (fold_left cfer_step l s) /\ lv_batch (fold_left cfer_step l s) = lv_batch s.
+Proof.
+  induction l as [|c0 l IH]; intros s H Hc Hnd Hl Hcf; cbn [fold_left] in *; [split; [exact H|reflexivity]|].
+  inversion Hnd as [|? ? Hnotin Hnd']; subst.
+  assert (Hc1: crashed (cfer_step s c0) = false).
+  { destruct (crashed (cfer_step s c0)) eqn:C; [|reflexivity]. rewrite (cfer_step_crashed l _ C) in Hcf. congruence. }
+  destruct (Hl c0 (or_introl eq_refl)) as [Hin0 Hp0].
+  destruct (gh_cfer_step s c0 H Hc Hin0 Hp0 Hc1) as (H1 & Elb & Hfr).
+  destruct (IH (cfer_step s c0) H1 Hc1 Hnd') as [H' Elb']; [|exact Hcf|split; [exact H'|rewrite Elb'; exact Elb]].
+  intros c Hcl. destruct (Hl c (or_intror Hcl)) as [Hin Hp]. split; [|exact Hp]. apply Hfr; [exact Hin| |].
+  - intros E. apply Hnotin. rewrite <- E. apply in_map. exact Hcl.
+  - unfold is_hopeful, in_state. unfold is_pending, in_state in Hp. destruct (cst c); cbn in *; congruence.
+Qed.
+
+Lemma gh_cfer_transfer_all (s : est) : GH s -> crashed s = false -> crashed (cfer_transfer_all_pending A cfg s) = false ->
+  GH (cfer_transfer_all_pending A cfg s) /\ lv_batch (cfer_transfer_all_pending A cfg s) = lv_batch s.
+Proof.
+  intros H Hc Hcf. unfold cfer_transfer_all_pending in *.
+  change (fold_left _ (pendings A s) s) with (fold_left cfer_step (pendings A s) s) in *.
+  apply gh_cfer_fold; try assumption.
+  - unfold pendings. apply nodup_filter_map. exact (g_nd _ _ (proj1 H)).
+  - intros c Hcp. exact (pending_in s c Hcp).
+Qed.
+
+
+Lemma sat_same_cands (s s' : est) i P : cands s' = cands s -> Sat s i P -> Sat s' i P.
+Proof. intros E HS c Hc Hi. rewrite E in Hc. exact (HS c Hc Hi). Qed.
+
+Lemma bt_simple_none reason tied (s : est) : snd (bt_simple A cfg reason tied s) = None -> crashed (fst (bt_simple A cfg reason tied s)) = true.
+Proof.
+  unfold bt_simple, break_tie. destruct tied as [|c [|c2 t]]; cbn [fst snd]; [intros _; apply sticky_set_crash|discriminate|].
+  destruct (by_tie A (c :: c2 :: t)); cbn [fst snd]; [intros _; apply sticky_set_crash|discriminate].
+Qed.
+
+Lemma gh_cfer_defeat_low (s : est) : GH s -> crashed s = false -> crashed (cfer_defeat_low A cfg s) = false ->
+  GH (cfer_defeat_low A cfg s) /\ BatchD (cfer_defeat_low A cfg s).
+Proof.
+  intros H Hc Hcf. unfold cfer_defeat_low in *.
+  destruct (low_candidates A s) as [[lv lows]|] eqn:El; [|rewrite sticky_set_crash in Hcf; discriminate].
+  destruct (bt_frame (bt_simple A cfg "defeat") lows s (bt_simple_logs _) H) as (H1 & Ec1 & Eb1 & Eq1 & Ecr1).
+  destruct (bt_simple_ok A cfg "defeat" lows s) as (_ & _ & Hmem).
+  pose proof (bt_simple_none "defeat" lows s) as Hnone.
+  destruct (bt_simple A cfg "defeat" lows s) as [s1 [l|]] eqn:Ebt; cbn [fst snd] in *.
+  - destruct (Hmem l eq_refl) as (c & Hcl & Hid). destruct (low_in_hop s lv lows c El Hcl) as [Hcin Hh].
+    assert (Hi1: In l (map (@cid A) (cands s1))) by (rewrite Ec1, <- Hid; apply in_map; exact Hcin).
+    split; [apply (gh_same (defeat A cfg l "Defeat" s1)); try reflexivity; apply gh_defeat; exact H1|].
+    intros i Hi. cbn [lv_batch set_batch] in Hi. destruct Hi as [<-|[]]. cbn [cands set_batch]. split; [rewrite ids_defeat; exact Hi1|].
+    apply (sat_same_cands (defeat A cfg l "Defeat" s1)); [reflexivity|apply sat_defeat_D; exact Hi1].
+  - rewrite (Hnone eq_refl) in Hcf. discriminate.
+Qed.
+
+Lemma cfer_find_batch_triple : T3 GN (Do (cfer_find_batch A cfg)) GNI GN GN.
+Proof.
+  apply t_do_nc. intros s [H Hc] _. split; [split; [apply (gh_same s); try reflexivity; exact H|exact Hc]|].
+  unfold cfer_find_batch. destruct (cf_batch cfg); [|intros i []].
+  apply (batchin_of_hopefuls s _ (cfer_batch A cfg s)); [reflexivity|reflexivity|apply cfer_batch_hopeful].
+Qed.
+
+Lemma nonempty_false {X} (l : list X) : nonempty l = false -> l = [].
+Proof. destruct l; [reflexivity|discriminate]. Qed.
+
+Theorem cfer_triple : T3 Pre (cfer A cfg) GN GN GN.
+Proof.
+  unfold cfer. eapply t_seq; [apply (start_triple _ _ _ (fun _ => True)); apply droop_quota_eps_nonneg|].
+  eapply t_post; [|apply (t_while est (@crashed A) GN GN)]; [intros s [Hs|[Hs _]]; exact Hs|].
+  eapply t_pre; [intros s [Hs _]; exact Hs|].
+  eapply t_seq with (M := GN); [apply pnc_triple; cbn [pnc]; intros s H _ _; apply gh_new_round; exact H|].
+  eapply t_seq with (M := GN); [apply pnc_triple; cbn [pnc]; pnc_split; intros s H _ _; apply gh_fold_elect_np; exact H|].
+  eapply t_seq with (M := GN); [apply pnc_triple; cbn [pnc]; intros s H _ _; apply gh_elect_with_quota; [intros c; apply ge_quota_le|exact H]|].
+  eapply t_seq with (M := GN); [apply pnc_triple; cbn [pnc]; pnc_split; intros s H _ _; [apply gh_unpend_all|apply gh_fold_defeat]; exact H|].
+  eapply t_seq with (M := GNI); [apply cfer_find_batch_triple|].
+  eapply t_seq with (M := GND).
+  - apply t_ite.
+    + apply t_do_nc. intros s [[[H Hc] HB] _] _. destruct (gh_defeat_batch_order "Defeat batch" s H HB) as (H1 & Ecr & HD).
+      split; [split; [exact H1|rewrite Ecr; exact Hc]|exact HD].
+    + apply t_ite.
+      * apply t_do_nc. intros s [[[[H Hc] HB] Hg] _] Hcf. destruct (gh_cfer_transfer_all s H Hc Hcf) as [H1 Elb].
+        split; [split; assumption|]. intros i Hi. rewrite Elb, (nonempty_false _ Hg) in Hi. destruct Hi.
+      * apply t_do_nc. intros s [[[[H Hc] HB] Hg] _] Hcf. destruct (gh_cfer_defeat_low s H Hc Hcf) as [H1 HD]. split; [split; assumption|exact HD].
+  - apply t_ite; [|apply t_skip'; intros s [[Hs _] _]; exact Hs].
+    eapply t_seq with (M := GND).
+    + apply t_ite; [|apply t_skip'; intros s [[Hs _] _]; exact Hs].
+      eapply t_seq with (M := GN); [apply t_do_nc; intros s [[[[H Hc] _] _] _] Hcf; split; [apply gh_fold_elect_np; exact H|exact Hcf]|].
+      eapply t_seq with (M := GN); [apply t_do_nc; intros s [H Hc] Hcf; split; [apply gh_fold_elect_np; exact H|exact Hcf]|].
+      apply t_break'. auto.
+    + apply t_do_nc. intros s [[H Hc] HD] _. destruct is_hopeful_props as (K1 & K2 & K3).
+      exact (gh_transfer_batch (is_hopeful A) s K1 K2 K3 H Hc HD).
 Qed.
 
 End Ops.
